@@ -282,7 +282,13 @@ func ReplayFile(t *testing.T, path string) {
 	if !ok {
 		t.Fatalf("REPLAY-RESULT harness-error unknown test %q", rf.Test)
 	}
+	// a replayed case is also a termination check (the driver reads exit code 3 as "hang")
+	wd := time.AfterFunc(HangTimeout, func() {
+		fmt.Fprintf(os.Stderr, "WATCHDOG replay of %s expired after %v\n", path, HangTimeout)
+		os.Exit(3)
+	})
 	v := f(rf.Case)
+	wd.Stop()
 	if v == nil {
 		fmt.Println("REPLAY-RESULT ok")
 		return
